@@ -92,7 +92,11 @@ static char rootTransId[MAXLEN];
 /* Counter used during array parsing. */
 static int types = 0;
 
-#define CALL(first,last,call) do { ch->set_position(first.start, last.end); try { ch->call; } catch (TypeException &te) { ch->handle_error(te); } } while (0)
+/* The number of callbacks that the current parse has left by an exception: such a callback has not done to the
+ * stacks of the builder what the grammar counts on (see parse_restorer_t). */
+static int callback_errors = 0;
+
+#define CALL(first,last,call) do { ch->set_position(first.start, last.end); try { ch->call; } catch (TypeException &te) { ++callback_errors; ch->handle_error(te); } } while (0)
 
 #define YY_(msg) utap_msg(msg)
 
@@ -2127,7 +2131,8 @@ static int32_t parse_XTA(ParserBuilder *aParserBuilder,
     // A text with a syntax error that the grammar recovers from (`(3 + )`) is parsed to the end, but what it has
     // left on the operand stack is not what its callbacks were meant to leave: it has failed like one that is given up.
     utap_nerrs = 0;  // the generated parser counts on from one parse to the next
-    if (utap_parse() || utap_nerrs > 0)
+    callback_errors = 0;
+    if (utap_parse() || utap_nerrs > 0 || callback_errors > 0)
     {
         res = -1;
     }
@@ -2153,7 +2158,8 @@ static int32_t parseProperty(ParserBuilder *aParserBuilder, const std::string& x
     BEGIN(INITIAL);
 
     utap_nerrs = 0;  // the generated parser counts on from one parse to the next
-    const int32_t res = (utap_parse() || utap_nerrs > 0) ? -1 : 0;
+    callback_errors = 0;
+    const int32_t res = (utap_parse() || utap_nerrs > 0 || callback_errors > 0) ? -1 : 0;
     restorer.failed = (res != 0);
     return res;
 }
